@@ -46,7 +46,7 @@ def incremental_records(rnd, first_id, selfref=False):
     g = A.Gen(rnd, mode, CFG)
     while True:
         t = g.struct()
-        if not A.has_dup_names(t) and not any(f.get("anon") for f in t["fields"]):
+        if not A.has_dup_names(t):
             break
     if selfref:
         # struct s { ...; s *next; ... }: the name is pre-registered, the fields are committed afterwards
